@@ -175,7 +175,8 @@ def validate_traces(traces, module="MxTrace", cfg="MxTrace.cfg", timeout=900, ke
     try:
         with os.fdopen(fd, "w") as f:
             json.dump(traces, f)
-        r = run_tlc(module, cfg=cfg, env={"TRACE_FILE": path}, workers=1, timeout=timeout)
+        r = run_tlc(module, cfg=cfg, env={"TRACE_FILE": path}, workers=1, timeout=timeout,
+                    heap="1500m")
         v = verdicts(r["out"])
         if len(v) != len(traces):
             out = r["out"]
